@@ -212,6 +212,15 @@ func (d *Decoder) LoadParityData() error {
 		maxParityVolumeCount = 99
 	}
 
+	// The parity data of a volume covers the largest file of the
+	// set.
+	var maxFileBytes uint64
+	for _, entry := range d.indexVolume.entries {
+		if entry.header.Status.savedInVolumeSet() && entry.header.FileBytes > maxFileBytes {
+			maxFileBytes = entry.header.FileBytes
+		}
+	}
+
 	shardByteCount := 0
 	parityData := make([][]byte, maxParityVolumeCount)
 	var maxI uint64
@@ -249,6 +258,9 @@ func (d *Decoder) LoadParityData() error {
 			if byteCount == 0 {
 				// TODO: Relax this check.
 				return volume{}, byteCount, errors.New("no parity data in volume")
+			}
+			if uint64(byteCount) < maxFileBytes {
+				return volume{}, byteCount, errors.New("parity data shorter than the largest file")
 			}
 			if shardByteCount == 0 {
 				shardByteCount = byteCount
